@@ -6,18 +6,18 @@ def R_of_q(q):
     """rotation matrix of a unit quaternion (w, x, y, z), Hamilton convention, v' = R v = q v q*"""
     w, x, y, z = q[0], q[1], q[2], q[3]
     return np.array([
-        [1.0 - 2.0 * (y * y + z * z), 2.0 * (x * y - w * z), 2.0 * (x * z + w * y)],
-        [2.0 * (x * y + w * z), 1.0 - 2.0 * (x * x + z * z), 2.0 * (y * z - w * x)],
-        [2.0 * (x * z - w * y), 2.0 * (y * z + w * x), 1.0 - 2.0 * (x * x + y * y)]], dtype=object if _is_obj(q) else float)
+        [1 - 2 * (y * y + z * z), 2 * (x * y - w * z), 2 * (x * z + w * y)],
+        [2 * (x * y + w * z), 1 - 2 * (x * x + z * z), 2 * (y * z - w * x)],
+        [2 * (x * z - w * y), 2 * (y * z + w * x), 1 - 2 * (x * x + y * y)]], dtype=object if _is_obj(q) else float)
 
 
 def R_of_q_hom(q):
     """homogeneous form (valid for any non-zero q after division by |q|^2): w2+x2-y2-z2 on the diagonal"""
     w, x, y, z = q[0], q[1], q[2], q[3]
     return np.array([
-        [w * w + x * x - y * y - z * z, 2.0 * (x * y - w * z), 2.0 * (x * z + w * y)],
-        [2.0 * (x * y + w * z), w * w - x * x + y * y - z * z, 2.0 * (y * z - w * x)],
-        [2.0 * (x * z - w * y), 2.0 * (y * z + w * x), w * w - x * x - y * y + z * z]], dtype=object if _is_obj(q) else float)
+        [w * w + x * x - y * y - z * z, 2 * (x * y - w * z), 2 * (x * z + w * y)],
+        [2 * (x * y + w * z), w * w - x * x + y * y - z * z, 2 * (y * z - w * x)],
+        [2 * (x * z - w * y), 2 * (y * z + w * x), w * w - x * x - y * y + z * z]], dtype=object if _is_obj(q) else float)
 
 
 def _is_obj(q):
